@@ -366,10 +366,30 @@ def tuple_elts(fn: FunctionInfo, e: ast.AST | None) -> list[ast.AST]:
     return [e] if e is not None else []
 
 
+def always_leaves(block: list[ast.stmt]) -> bool:
+    """does every path through `block` end in continue / break / return / raise (a try statement leaves when its body - or its else
+    clause - and every handler do; a `finally` that leaves does too)?"""
+    if not block:
+        return False
+    last = block[-1]
+    if isinstance(last, (ast.Continue, ast.Break, ast.Return, ast.Raise)):
+        return True
+    if isinstance(last, ast.Try):
+        if last.finalbody and always_leaves(last.finalbody):
+            return True
+        main = always_leaves(last.orelse) if last.orelse else always_leaves(last.body)
+        return main and all(always_leaves(h.body) for h in last.handlers)
+    if isinstance(last, ast.If):
+        return bool(last.orelse) and always_leaves(last.body) and always_leaves(last.orelse)
+    if isinstance(last, (ast.With, ast.AsyncWith)):
+        return always_leaves(last.body)
+    return False
+
+
 def if_arms(root: ast.AST, iff: ast.If) -> tuple[list[ast.stmt], list[ast.stmt]]:
     """(then-arm, else-arm) of `iff`, reading a guard clause as an if/else: when the then-arm always leaves (continue / break /
     return / raise) and there is no else, the statements that follow the `if` in its block are the else-arm."""
-    if iff.orelse or not iff.body or not isinstance(iff.body[-1], (ast.Continue, ast.Break, ast.Return, ast.Raise)):
+    if iff.orelse or not iff.body or not always_leaves(iff.body):
         return list(iff.body), list(iff.orelse)
     for n in ast.walk(root):
         for fld in ("body", "orelse", "finalbody"):
